@@ -35,3 +35,27 @@ Definition check_mrows (c : mrow_case) : N :=
       c1 + (if ok && colsok then 0 else 4)
   | _, _ => c1
   end.
+
+(* C02/C11: rows returned by the database under both scan orders.  mode 0: the outermost level
+   ends with a total sort (+ slices): exact list; mode 1: bag.  bit 1: tree differs; bit 4: the
+   multiset (or list) of rows contradicts the specification, or a row has wrong columns. *)
+Record sql_case := SQCase {
+  sq_prog : mprog;
+  sq_env : list (positive * rows);
+  sq_tree : result tree;
+  sq_rows_a : rows;
+  sq_rows_b : rows;
+  sq_mode : N }.
+
+Definition check_sql (c : sql_case) : N :=
+  let env := mkenv (sq_env c) in
+  let c1 := if result_eqb tree_eqb (build_multi (sq_prog c)) (sq_tree c) then 0 else 1 in
+  match sq_tree c with
+  | Ok t =>
+      if negb (kd_mprog env (sq_prog c)) then 1000 else
+      let s := spec_mprog env (sq_prog c) in
+      let ok l := match sq_mode c with 0 => rows_eqb s l | _ => bag_eqb s l end in
+      let colsok l := forallb (fun r : row => bool_decide (dom r = columns t)) l in
+      c1 + (if ok (sq_rows_a c) && ok (sq_rows_b c) && colsok (sq_rows_a c) && colsok (sq_rows_b c) then 0 else 4)
+  | Err _ => c1
+  end.
